@@ -1235,14 +1235,43 @@ func c07ExtractCompile(repo string) (string, string, error) {
 	// (2) the converters put behind the state handlers of a passthrough node
 	var loop *ast.RangeStmt
 	var pass *ast.IfStmt
+	// the loop over the nodes: for name, node := range g.nodes { … }, or (since the repair F-C20g: children are
+	// compiled in the order of their keys) names collected by for name := range g.nodes { names = append(names, name) },
+	// sorted, then for _, name := range names { node := g.nodes[name]; … }
+	keyVar, nodeVar := "", ""
+	collected := map[string]bool{} // slices that hold exactly the keys of g.nodes
 	for _, s := range l[to+1:] {
 		rs, ok := s.(*ast.RangeStmt)
-		if !ok || c07sq(rs.X) != "g.nodes" || rs.Key == nil || rs.Value == nil {
+		if !ok {
 			continue
 		}
-		for _, b := range rs.Body.List {
+		kv, nv := "", ""
+		body := rs.Body.List
+		switch {
+		case c07sq(rs.X) == "g.nodes" && rs.Key != nil && rs.Value == nil && len(body) == 1:
+			// names = append(names, name)
+			if as, ok := body[0].(*ast.AssignStmt); ok && as.Tok == token.ASSIGN && len(as.Lhs) == 1 && len(as.Rhs) == 1 {
+				if id, ok := as.Lhs[0].(*ast.Ident); ok && c07sq(as.Rhs[0]) == "append("+id.Name+","+c07sq(rs.Key)+")" {
+					collected[id.Name] = true
+				}
+			}
+			continue
+		case c07sq(rs.X) == "g.nodes" && rs.Key != nil && rs.Value != nil:
+			kv, nv = c07sq(rs.Key), c07sq(rs.Value)
+		case collected[c07sq(rs.X)] && rs.Key != nil && c07sq(rs.Key) == "_" && rs.Value != nil && len(body) > 0:
+			// node := g.nodes[name]
+			as, ok := body[0].(*ast.AssignStmt)
+			if !ok || as.Tok != token.DEFINE || len(as.Lhs) != 1 || len(as.Rhs) != 1 || c07sq(as.Rhs[0]) != "g.nodes["+c07sq(rs.Value)+"]" {
+				continue
+			}
+			kv, nv = c07sq(rs.Value), c07sq(as.Lhs[0])
+			body = body[1:]
+		default:
+			continue
+		}
+		for _, b := range body {
 			if is, ok := b.(*ast.IfStmt); ok && strings.Contains(c07sq(is.Cond), "ComponentOfPassthrough") {
-				loop, pass = rs, is
+				loop, pass, keyVar, nodeVar = rs, is, kv, nv
 			}
 		}
 	}
@@ -1250,8 +1279,8 @@ func c07ExtractCompile(repo string) (string, string, error) {
 		return "", "", fmt.Errorf("graph.compile: the handling of passthrough nodes' state handlers was not found")
 	}
 	t = c07NewTr("graph.compile", "convs")
-	t.keys[c07sq(loop.Key)] = "name"
-	t.nodeAlias[c07sq(loop.Value)] = "name"
+	t.keys[keyVar] = "name"
+	t.nodeAlias[nodeVar] = "name"
 	convs, err := t.stmts([]ast.Stmt{pass}, "  ", 0)
 	if err != nil {
 		return "", "", err
@@ -1340,7 +1369,162 @@ func c07ExtractAddNode(repo string) (string, string, error) {
 // (tools/go2v is one shared package: nothing here depends on another extractor's file)
 
 func c07ParseGo(fset *token.FileSet, repo string, rel ...string) (*ast.File, error) {
-	return parser.ParseFile(fset, filepath.Join(append([]string{repo}, rel...)...), nil, 0)
+	f, err := parser.ParseFile(fset, filepath.Join(append([]string{repo}, rel...)...), nil, 0)
+	if err == nil {
+		c07Normalize(f)
+	}
+	return f, err
+}
+
+// c07Normalize rewrites, before any translator looks at the file, two spellings that mean the same in Go
+// (round 5: behaviour-preserving refactorings should leave the translation unchanged):
+//   - a switch without init statement, without tag or with a plain variable as its tag, whose clauses contain no
+//     break / fallthrough / goto / label becomes the chain if c1 || c1' { … } else if c2 { … } else { default }
+//     (default last wherever it is written; with a tag x, case a is x == a);
+//   - b == true, b != false become b;  b == false, b != true become !b  (true / false literally).
+func c07Normalize(f *ast.File) {
+	ast.Inspect(f, func(n ast.Node) bool {
+		var list []ast.Stmt
+		switch x := n.(type) {
+		case *ast.BlockStmt:
+			list = x.List
+		case *ast.CaseClause:
+			list = x.Body
+			for i := range x.List {
+				x.List[i] = c07NormExpr(x.List[i])
+			}
+		case *ast.CommClause:
+			list = x.Body
+		case *ast.IfStmt:
+			x.Cond = c07NormExpr(x.Cond)
+		case *ast.ForStmt:
+			if x.Cond != nil {
+				x.Cond = c07NormExpr(x.Cond)
+			}
+		case *ast.AssignStmt:
+			for i := range x.Rhs {
+				x.Rhs[i] = c07NormExpr(x.Rhs[i])
+			}
+		case *ast.ReturnStmt:
+			for i := range x.Results {
+				x.Results[i] = c07NormExpr(x.Results[i])
+			}
+		}
+		for i, s := range list {
+			if sw, ok := s.(*ast.SwitchStmt); ok {
+				if r := c07SwitchToIf(sw); r != nil {
+					list[i] = r
+				}
+			}
+		}
+		return true
+	})
+}
+
+func c07BoolLit(e ast.Expr) (bool, bool) {
+	if id, ok := e.(*ast.Ident); ok && (id.Name == "true" || id.Name == "false") {
+		return id.Name == "true", true
+	}
+	return false, false
+}
+
+func c07NormExpr(e ast.Expr) ast.Expr {
+	switch x := e.(type) {
+	case *ast.ParenExpr:
+		x.X = c07NormExpr(x.X)
+	case *ast.UnaryExpr:
+		x.X = c07NormExpr(x.X)
+	case *ast.BinaryExpr:
+		x.X, x.Y = c07NormExpr(x.X), c07NormExpr(x.Y)
+		if x.Op == token.EQL || x.Op == token.NEQ {
+			other, lit, isLit := x.X, false, false
+			if b, ok := c07BoolLit(x.Y); ok {
+				lit, isLit = b, true
+			} else if b, ok := c07BoolLit(x.X); ok {
+				other, lit, isLit = x.Y, b, true
+			}
+			if isLit {
+				if _, both := c07BoolLit(other); both {
+					return e
+				}
+				if lit == (x.Op == token.EQL) {
+					return other
+				}
+				switch other.(type) {
+				case *ast.Ident, *ast.CallExpr, *ast.SelectorExpr, *ast.ParenExpr, *ast.IndexExpr:
+				default:
+					other = &ast.ParenExpr{X: other}
+				}
+				return &ast.UnaryExpr{Op: token.NOT, X: other, OpPos: x.Pos()}
+			}
+		}
+	}
+	return e
+}
+
+// nil: the switch is left as it is
+func c07SwitchToIf(sw *ast.SwitchStmt) ast.Stmt {
+	if sw.Init != nil || len(sw.Body.List) == 0 {
+		return nil
+	}
+	// a tag that is a plain variable: case a, b becomes tag == a || tag == b
+	var tag *ast.Ident
+	if sw.Tag != nil {
+		id, ok := sw.Tag.(*ast.Ident)
+		if !ok {
+			return nil
+		}
+		tag = id
+	}
+	bad := false
+	ast.Inspect(sw.Body, func(n ast.Node) bool {
+		switch n.(type) {
+		case *ast.BranchStmt, *ast.LabeledStmt:
+			bad = true
+		}
+		return !bad
+	})
+	if bad {
+		return nil
+	}
+	var deflt *ast.CaseClause
+	var clauses []*ast.CaseClause
+	for _, s := range sw.Body.List {
+		cc := s.(*ast.CaseClause)
+		if cc.List == nil {
+			deflt = cc
+		} else {
+			clauses = append(clauses, cc)
+		}
+	}
+	if len(clauses) == 0 {
+		return nil
+	}
+	var tail ast.Stmt
+	if deflt != nil {
+		tail = &ast.BlockStmt{List: deflt.Body, Lbrace: deflt.Pos(), Rbrace: deflt.End()}
+	}
+	for i := len(clauses) - 1; i >= 0; i-- {
+		cc := clauses[i]
+		var cond ast.Expr
+		for _, e := range cc.List {
+			e = c07NormExpr(e)
+			if tag != nil {
+				e = &ast.BinaryExpr{X: &ast.Ident{Name: tag.Name, NamePos: e.Pos()}, Op: token.EQL, Y: e, OpPos: e.Pos()}
+			}
+			if cond == nil {
+				cond = e
+			} else {
+				cond = &ast.BinaryExpr{X: cond, Op: token.LOR, Y: e}
+			}
+		}
+		ifs := &ast.IfStmt{If: cc.Pos(), Cond: cond, Body: &ast.BlockStmt{List: cc.Body, Lbrace: cc.Pos(), Rbrace: cc.End()}}
+		if tail != nil {
+			ifs.Else = tail
+		}
+		tail = ifs
+	}
+	return tail
 }
 
 func c07TopFunc(f *ast.File, name string) *ast.FuncDecl {
